@@ -90,8 +90,8 @@ pub fn build_pass_0(
         messages: Rc::new(RefCell::new(parsed.messages)),
     };
 
-    // the budget of macro calls is that of the whole build
-    let mut calls = 0;
+    // the budget of macro calls and of the lines they expand to is that of the whole build
+    let mut calls = (0, 0);
     for segment in parsed.segments {
         match segment.t {
             SegmentType::Data | SegmentType::Eeprom => {
@@ -115,6 +115,9 @@ pub fn build_pass_0(
 const MAX_MACRO_DEPTH: usize = 64;
 /// How long a line of a macro body may get by the substitution of arguments
 const MAX_EXPANDED_LINE: usize = 65536;
+/// How many lines all macro calls of one build may expand to: every word of the largest flash
+/// filled by a line of its own
+const MAX_EXPANDED_ITEMS: usize = 4 * 1024 * 1024;
 /// How many macro calls one build may expand
 const MAX_MACRO_CALLS: usize = 200_000;
 
@@ -123,14 +126,14 @@ fn pass0_internal(
     context: &Pass0Context,
     macroses: &HashMap<String, Vec<(CodePoint, String)>>,
     depth: usize,
-    calls: &mut usize,
+    calls: &mut (usize, usize),
 ) -> Result<(), Error> {
     for (line, item) in segment.items.iter() {
         match item {
             Item::Instruction(name, ops) => match name {
                 Operation::Custom(macro_name) => {
-                    *calls += 1;
-                    if depth >= MAX_MACRO_DEPTH || *calls > MAX_MACRO_CALLS {
+                    calls.0 += 1;
+                    if depth >= MAX_MACRO_DEPTH || calls.0 > MAX_MACRO_CALLS {
                         bail!(
                             "macro calls nested deeper than {} levels or more than {} of them at {} on {}",
                             MAX_MACRO_DEPTH,
@@ -140,6 +143,15 @@ fn pass0_internal(
                         );
                     }
                     let segments = macro_expand(line, macro_name, ops, context, macroses)?;
+                    calls.1 += segments.iter().map(|x| x.items.len()).sum::<usize>();
+                    if calls.1 > MAX_EXPANDED_ITEMS {
+                        bail!(
+                            "macro calls expand to more than {} lines at {} on {}",
+                            MAX_EXPANDED_ITEMS,
+                            macro_name,
+                            line
+                        );
+                    }
                     if !segments.is_empty() {
                         let (current_address, current_type) = {
                             let current_segment = context.last_segment().unwrap();
